@@ -924,3 +924,74 @@ def snapshot_rule(ctx, rid, cg=None, scope=None, min_instances=0):
                 else:
                     r.fail(init.qualname, f"snapshot:{t.attr.lstrip('_')}<-{p}.{x.attr}", init.file, n.lineno, f"{ci.name}.__init__", f"`self.{t.attr}` is computed once from `{p}.{x.attr}` (which depends on the parameter `{via}` of {pclass.name}) and never rebuilt, while `{p}` stays attached as `self.{stored_params[p]}` and is read live elsewhere: after `{p}.{via} = ...` the object mixes the new law with the snapshot of the old one")
                 break
+
+
+def zero_argument_division_rule(ctx, rid, scope, pname="dt", min_instances=1):
+    """A call site that passes the literal 0 for a time-step parameter declares "no time elapses" (a pure read of the
+    state).  Constant propagation along the call graph: that zero must not reach a division by the parameter on a path
+    that is not guarded by a test of it -- 0/0 there turns a result query into NaN / a convergence failure."""
+    from .flow import CallGraph
+
+    repo = ctx.repo
+    cg = CallGraph(repo)
+    r = ctx.rule(rid, f"a literal 0 passed as `{pname}` (a read at frozen time) never reaches an unguarded division by `{pname}`", min_instances=min_instances)
+
+    def bind(call, g, f):
+        """parameter names of g bound to an expression of the call -> {param: expr}"""
+        ps = g.params()
+        off = 1 if (g.cls is not None and not g.is_static() and ps and ps[0] in ("self", "cls") and not (isinstance(call.func, ast.Attribute) and isinstance(call.func.value, ast.Name) and call.func.value.id == g.cls.name)) else 0
+        out = {}
+        for i, a in enumerate(call.args):
+            if i + off < len(ps):
+                out[ps[i + off]] = a
+        for k in call.keywords:
+            if k.arg in ps:
+                out[k.arg] = k.value
+        # defaults that are literal zero count as passed zeros when the argument is omitted
+        return out
+
+    def is_zero_lit(e):
+        return isinstance(e, ast.Constant) and isinstance(e.value, (int, float)) and not isinstance(e.value, bool) and e.value == 0
+
+    def divisions(g, p, path, seen, out, depth=6):
+        if (id(g), p) in seen or depth < 0:
+            return
+        seen.add((id(g), p))
+        parents = {}
+        for q in ast.walk(g.node):
+            for c in ast.iter_child_nodes(q):
+                parents[c] = q
+        for n in ast.walk(g.node):
+            if isinstance(n, ast.BinOp) and isinstance(n.op, ast.Div) and any(isinstance(x, ast.Name) and x.id == p for x in ast.walk(n.right)):
+                guarded = False
+                q = n
+                while q in parents:
+                    q = parents[q]
+                    if isinstance(q, (ast.If, ast.IfExp)) and any(isinstance(x, ast.Name) and x.id == p for x in ast.walk(q.test)):
+                        guarded = True
+                if not guarded:
+                    out.append((g, n, list(path)))
+            if isinstance(n, ast.Call):
+                for h in cg.resolve_call(g, n):
+                    b = bind(n, h, g)
+                    for hp, e in b.items():
+                        if isinstance(e, ast.Name) and e.id == p:
+                            divisions(h, hp, path + [g.qualname.split(".")[-1]], seen, out, depth - 1)
+
+    for f in repo.all_functions():
+        if not scope(f):
+            continue
+        for n in ast.walk(f.node):
+            if not isinstance(n, ast.Call):
+                continue
+            for g in cg.resolve_call(f, n):
+                b = bind(n, g, f)
+                if pname in b and is_zero_lit(b[pname]):
+                    r.instance(fn=f.qualname)
+                    out = []
+                    divisions(g, pname, [f.qualname.split(".")[-1]], set(), out)
+                    if out:
+                        h, node, path = out[0]
+                        r.fail(f.qualname, f"zero-{pname}-division:{h.qualname.split('.')[-1]}", f.file, n.lineno, f.name, f"`{norm_text(n)[:60]}` passes {pname} = 0; along {' -> '.join(path + [h.qualname.split('.')[-1]])} it reaches `{norm_text(node)[:50]}` ({h.file}:{node.lineno}) with no test of {pname}: 0/0 = NaN when that branch is active (e.g. a rate law on the spectral path)")
+                    else:
+                        r.ok(f"{f.qualname}: {pname}=0 reaches no unguarded division")
